@@ -7,7 +7,7 @@
    connection), Model/C19Mux.v (Listener.serve with io.ReadFull matchers, the
    tables registered by service.listen). *)
 From Coq Require Import ZArith List Bool.
-From V Require Import Bytes C19PTree C19Sniffer C19Mux C19Conc C19PTreeProofs C19SnifferProofs C19MuxProofs C19ConcProofs.
+From V Require Import Bytes C19PTree C19Sniffer C19Mux C19Conc C19Framed C19PTreeProofs C19SnifferProofs C19MuxProofs C19ConcProofs C19FramedProofs.
 Import ListNotations.
 
 (* the patricia tree, as Go builds it for any list of strings, answers for
@@ -142,6 +142,67 @@ Example C19_shared_buffer_refuted :
   option_map c_dec (nth_error (fst (run_sched false (sys_init prod_tables [a; b]) sched)) 0) = Some (Some (DSvc SVC_HTTP)) /\
   option_map c_dec (nth_error (fst (run_sched true (sys_init prod_tables [a; b]) sched)) 0) = Some (Some (DSvc SVC_RTSP)).
 Proof. exact shared_buffer_refuted. Qed.
+
+(* what the service makes of the connection: its reader (bufio over the Conn,
+   header block + Content-Length body taken with io.ReadFull) yields the same
+   message list for every chunking of the connection's reads … *)
+Theorem C19_framed_reader_chunking_independent : forall clen fuel chunks pend,
+  read_msgs true clen fuel chunks pend = read_msgs true clen fuel [] (pend ++ concat chunks).
+Proof. exact framed_reader_chunking_independent. Qed.
+Print Assumptions C19_framed_reader_chunking_independent.
+
+(* … so, end to end: for any two segmentations of the same client byte stream
+   (any sniffing sessions, any positive service read sizes, either lastErr
+   treatment) the handler-side reader yields the same message list, namely the
+   framing of the bytes the client wrote; [clen] is any Content-Length function *)
+Theorem C19_service_reads_are_segmentation_independent :
+  forall clen fx1 fx2 sc1 sc2 sessions1 sessions2 svc1 svc2 ms1 ms2 rem1 rem2 rs1 rs2 s1 s2,
+  stream sc1 = stream sc2 ->
+  sniff_run fx1 sc1 sessions1 svc1 = (ms1, rem1, rs1, s1) ->
+  sniff_run fx2 sc2 sessions2 svc2 = (ms2, rem2, rs2, s2) ->
+  Forall (fun n => (0 < n)%nat) svc1 -> Forall (fun n => (0 < n)%nat) svc2 ->
+  (length (stream sc1) + length sc1 <= length svc1)%nat ->
+  (length (stream sc2) + length sc2 <= length svc2)%nat ->
+  handler_msgs true clen rs1 = frames clen (stream sc1) /\
+  handler_msgs true clen rs1 = handler_msgs true clen rs2.
+Proof. exact service_reads_are_segmentation_independent. Qed.
+Print Assumptions C19_service_reads_are_segmentation_independent.
+
+(* behind Listener.serve: the chosen service receives the whole stream *)
+Theorem C19_mux_service_complete : forall tables sc svc i rem0 rs,
+  tables_wf tables = true ->
+  mux_run true tables sc svc = (DSvc i, rem0, rs) ->
+  Forall (fun n => (0 < n)%nat) svc ->
+  (length (stream sc) + length sc <= length svc)%nat ->
+  delivered rs = stream sc.
+Proof. exact mux_service_complete. Qed.
+Print Assumptions C19_mux_service_complete.
+
+Theorem C19_frames_no_fuel : forall clen st, snd (frames clen st) <> FinFuel.
+Proof. exact frames_no_fuel. Qed.
+Print Assumptions C19_frames_no_fuel.
+
+(* what the theorem excludes: the body taken with a single Read of the buffered
+   reader — a cut inside the body gives a NUL-padded body and the rest of the
+   body is read as the next request *)
+Example C19_single_read_body_refuted :
+  let hdr := [83;69;84;95;80;65;82;65;77;69;84;69;82;32;42;32;82;84;83;80;47;49;46;48;13;10] ++
+             CL_KEY ++ [53;13;10;13;10] in
+  let nxt := [79;80;84;73;79;78;83;32;42;32;82;84;83;80;47;49;46;48;13;10;13;10] in
+  let body := [97;98;99;100;101] in
+  let whole := [hdr ++ body ++ nxt] in
+  let cut := [hdr ++ [97;98]; [99;100;101] ++ nxt] in
+  read_msgs true clen_simple 9 cut [] = read_msgs true clen_simple 9 whole [] /\
+  read_msgs true clen_simple 9 whole [] = ([(hdr, body); (nxt, [])], FinEOF) /\
+  read_msgs false clen_simple 9 cut [] = ([(hdr, [97;98;0;0;0]); ([99;100;101] ++ nxt, [])], FinEOF).
+Proof. exact single_read_body_refuted. Qed.
+
+Theorem C19_msgs_model_passes : forall clen tables sc,
+  tables_wf tables = true -> errfree sc = true ->
+  let '(d, views, code) := msgs_run clen tables sc in
+  ok_msgs_case clen tables sc d views code = true.
+Proof. exact msgs_case_model_passes. Qed.
+Print Assumptions C19_msgs_model_passes.
 
 (* the decidable oracles applied to the implementation accept the model *)
 Theorem C19_conc_model_passes : forall tables conns,
